@@ -81,7 +81,8 @@ MANIFEST = {
             'old->new->old and through Slot(); node, core/GPU indices, lfs, '
             'mem are compared after every step.'
             "  The same function payload is decoded twice with the first decode's argument objects changed in between (what a call leaves behind): the second decode gives the original arguments and result."
-            '  Function tasks are built on 2-4 threads at the same time: every payload decodes to the call its own thread made.',
+            '  Function tasks are built on 2-4 threads at the same time: every payload decodes to the call its own thread made.'
+            '  Slot constructor forms include slots whose cores and gpus use different legal notations (plain indexes, resource dicts, RO objects).',
     'note': 'sampled, not enumerated; alias table taken from _verify and the '
             '_schema comments; when a deprecated attribute and its replacement '
             'are both set to different values either value is accepted; '
@@ -1679,7 +1680,10 @@ def run_child_batch(batch, res, ctx):
 NEW_FORMS = ['Slot', 'Slot.as_dict', 'v1-int']
 OLD_FORMS = ['int', 'rodict', 'RO', 'pair-tuple', 'pair-list', 'lol1', 'lolN']
 CTOR_FORMS = ['ctor-int', 'ctor-rodict', 'ctor-RO', 'ctor-kw-int',
-              'ctor-kw-RO']
+              'ctor-kw-RO',
+              # cores and gpus in different (legal) notations
+              'ctor-mix-int-rodict', 'ctor-mix-RO-int', 'ctor-mix-rodict-RO',
+              'ctor-mix-int-RO']
 
 
 def _idx(seq):
@@ -1766,6 +1770,14 @@ def build_slot(spec, form):
         s = Slot(from_dict=dict(base, cores=ros(cores), gpus=ros(gpus)))
     elif form == 'ctor-kw-int':
         s = Slot(cores=cores, gpus=gpus, **base)
+    elif form == 'ctor-mix-int-rodict':
+        s = Slot(dict(base, cores=cores, gpus=rds(gpus)))
+    elif form == 'ctor-mix-RO-int':
+        s = Slot(cores=ros(cores), gpus=gpus, **base)
+    elif form == 'ctor-mix-rodict-RO':
+        s = Slot(dict(base, cores=rds(cores), gpus=ros(gpus)))
+    elif form == 'ctor-mix-int-RO':
+        s = Slot(from_dict=dict(base, cores=cores, gpus=ros(gpus)))
     else:
         raise ValueError(form)
 
